@@ -34,7 +34,7 @@ def textOf (b : Bytes) : String := String.ofList (b.map fun c => Char.ofNat c.to
 
 inductive Instr where
   | put (k v : Bytes) | del (k : Bytes) | get (k : Bytes) | cp (a b : Bytes) | ntf (d : Bytes) | mkl (d : Bytes)
-  | fail | ret (d : Bytes) | wit (a : Addr) | inp | ctx | bi
+  | fail | panic | ret (d : Bytes) | wit (a : Addr) | inp | ctx | bi
   | call (propagate : Bool) (a : Addr) (m : Bytes) (args : Bytes)
 
 /-- Tokens up to the bracket matching an already consumed `[`; returns (inside, rest). -/
@@ -58,6 +58,7 @@ partial def parseInstrs : List String → Option (List Instr)
   | "ntf" :: d :: r => do pure (.ntf (← Hex.ofHex d) :: (← parseInstrs r))
   | "mkl" :: d :: r => do pure (.mkl (← Hex.ofHex d) :: (← parseInstrs r))
   | "fail" :: r => do pure (.fail :: (← parseInstrs r))
+  | "panic" :: r => do pure (.panic :: (← parseInstrs r))
   | "ret" :: d :: r => do pure (.ret (← Hex.ofHex d) :: (← parseInstrs r))
   | "wit" :: a :: r => do pure (.wit (← addrNamed a) :: (← parseInstrs r))
   | "inp" :: r => do pure (.inp :: (← parseInstrs r))
@@ -84,6 +85,7 @@ def compile : List Instr → Prog
   | .ntf d :: r => .context fun cur _ => .notify ⟨cur, d⟩ (compile r)
   | .mkl d :: r => .merkle d (compile r)
   | .fail :: _ => .fail
+  | .panic :: _ => .panic
   | .ret d :: _ => .ret d
   | .wit a :: r => .witness a fun b => .log (if b then "w:1" else "w:0") (compile r)
   | .inp :: r => .getInput fun i => .log ("i:" ++ Hex.showHex i) (compile r)
@@ -166,8 +168,9 @@ def step (s : St) (toks : List String) : St × String :=
     match parseTxs rest, dt.toNat? with
     | some txs, some d =>
       let t := s.time + 1 + d
-      let res := execBlock leafHash registry { base := s.base, height := s.height + 1, time := t } txs
-      ({ s with last := some (res.writeSet, t, res.crossHashes) }, showResult res)
+      match execBlockP leafHash registry { base := s.base, height := s.height + 1, time := t } txs with
+      | some res => ({ s with last := some (res.writeSet, t, res.crossHashes) }, showResult res)
+      | none => ({ s with last := none }, "panic")     -- the panic leaves ExecuteBlock: no result, nothing to commit
     | _, _ => (s, "bad-op")
   | "nblk" :: dt :: rest =>
     -- a block of real native-contract transactions: evaluated on the implementation only (k identical executions);
